@@ -225,7 +225,14 @@ def h5(ctx):
                 root = crate.root_of(b)
                 if (root.file or "").endswith("tst.rs") or (root.file or "").endswith("src/slot.rs") or (b.file or "").endswith("src/slotmap.rs") and root.name == "test_slotmap":
                     continue
-                seen.setdefault((b.file, c.callee.name), []).append((root, b, c))
+                # (a function that was moved to another file of the crate takes its reviewed call sites with it)
+                f_ = b.file
+                tab_ = mir._anchors()
+                if root.name and "%s::%s" % (root.file, root.name) not in tab_:
+                    ks_ = [k_ for k_ in tab_ if k_.rsplit("::", 1)[1] == root.name]
+                    if len(ks_) == 1 and len([x_ for x_ in crate.by_name.get(root.name, []) if x_.kind != "Closure"]) == 1:
+                        f_ = ks_[0].rsplit("::", 1)[0]
+                seen.setdefault((f_, c.callee.name), []).append((root, b, c))
     n_named = sum(len(v) for v in seen.values())
     for (file, ctor), sites in sorted(seen.items(), key=lambda x: (str(x[0][0]), x[0][1])):
         ent = ALLOWED_NAMED_CALLERS.get((file, ctor))
